@@ -44,40 +44,54 @@ fn keys_of(b: &[u8]) -> Vec<String> {
     out
 }
 
-/// The follow-up history.  Returns the renderings (for the differential) or the panic.
-fn follow_up(opts: Opts, base: &Path, words: &[String], sel_file: &Path) -> Result<Vec<Rendered>, (String, PanicInfo)> {
+/// What went wrong in a follow-up history: (kind prefix, what was being done, detail).
+pub struct Broken {
+    pub kind: String,
+    pub what: String,
+    pub detail: String,
+}
+
+fn panic_at(what: String, p: PanicInfo) -> Broken {
+    Broken { kind: panic_kind(&p), what, detail: p.to_string() }
+}
+
+/// The follow-up history.  Returns the renderings (for the differentials) and the number of
+/// renderings made before the restart.
+fn follow_up(opts: Opts, base: &Path, words: &[String]) -> Result<(Vec<Rendered>, usize), Broken> {
     let mut out = vec![];
-    let at = |what: &str| what.to_string();
-    let mut ctx = Ctx::new_at(opts, base).map_err(|p| (at("creating a context"), p))?;
+    let mut ctx = Ctx::new_at(opts, base).map_err(|p| panic_at("creating a context".into(), p))?;
     for w in words {
-        let r = ctx.type_frontend(w).map_err(|p| (format!("typing {w:?}"), p))?;
+        let r = ctx.type_frontend(w).map_err(|p| panic_at(format!("typing {w:?}"), p))?;
         if let Some(r) = r {
             let n = r.choices();
             out.push(r);
             if n > 0 {
-                ctx.commit(n - 1).map_err(|p| (format!("committing the last candidate of {w:?}"), p))?;
+                ctx.commit(n - 1).map_err(|p| panic_at(format!("committing the last candidate of {w:?}"), p))?;
+                if ctx.ongoing() {
+                    return Err(Broken { kind: "session-open-after-commit".into(), what: format!("committing the last candidate of {w:?}"), detail: "the context still reports an ongoing input session after the commit".into() });
+                }
             }
         }
     }
     let cfg = crate::driver::mk_config_at(&opts, base);
     {
         let c = &mut ctx.ctx;
-        crate::driver::guarded(|| c.update_engine(&cfg)).map_err(|p| (at("update-engine"), p))?;
+        crate::driver::guarded(|| c.update_engine(&cfg)).map_err(|p| panic_at("update-engine".into(), p))?;
     }
     for w in words.iter().take(3) {
-        if let Some(r) = ctx.type_frontend(w).map_err(|p| (format!("typing {w:?} after update-engine"), p))? {
+        if let Some(r) = ctx.type_frontend(w).map_err(|p| panic_at(format!("typing {w:?} after update-engine"), p))? {
             out.push(r);
         }
-        ctx.finish().map_err(|p| (at("finish"), p))?;
+        ctx.finish().map_err(|p| panic_at("finish".into(), p))?;
     }
-    let ctx2 = Ctx::new_at(opts, base).map_err(|p| (at("creating a second context (restart)"), p))?;
+    let before_restart = out.len();
+    let ctx2 = Ctx::new_at(opts, base).map_err(|p| panic_at("creating a second context (restart)".into(), p))?;
     if let Some(w) = words.first() {
-        if let Some(r) = ctx2.type_frontend(w).map_err(|p| (format!("typing {w:?} after restart"), p))? {
+        if let Some(r) = ctx2.type_frontend(w).map_err(|p| panic_at(format!("typing {w:?} after restart"), p))? {
             out.push(r);
         }
     }
-    let _ = sel_file;
-    Ok(out)
+    Ok((out, before_restart))
 }
 
 fn words_for(f: &Fault) -> Vec<String> {
@@ -137,26 +151,26 @@ pub fn check_fault(f: &Fault, with_data: bool, st: &mut Stats) -> Result<(), Fai
         }
     }
     let words = words_for(f);
-    let got = follow_up(opts, sb.base(), &words, &sb.selection_file()).map_err(|(what, p)| {
-        Failure::new(
-            format!("{}:{}", if matches!(f, Fault::Dir(_)) { "panic-directory-fault" } else if unreadable { "panic-unreadable-file" } else { "panic-odd-content" }, panic_kind(&p)),
-            format!("{what}: {p}"),
-            desc.clone(),
-        )
-    })?;
-    if unreadable {
-        // differential: same history with the file absent
+    let class = if matches!(f, Fault::Dir(_)) { "directory-fault" } else if unreadable { "unreadable-file" } else { "odd-content" };
+    let (got, before_restart) = follow_up(opts, sb.base(), &words).map_err(|b| Failure::new(format!("{class}:{}", b.kind), format!("{}: {}", b.what, b.detail), desc.clone()))?;
+    if unreadable || matches!(f, Fault::Dir(_)) {
+        // differential: the same history in a healthy user directory without the file
         let clean = Sandbox::new();
-        let want = follow_up(opts, clean.base(), &words, &clean.selection_file()).map_err(|(what, p)| Failure::new(panic_kind(&p), format!("reference run: {what}: {p}"), desc.clone()))?;
-        if got != want {
-            let i = got.iter().zip(want.iter()).position(|(a, b)| a != b).unwrap_or(0);
+        let (want, _) = follow_up(opts, clean.base(), &words).map_err(|b| Failure::new(b.kind, format!("reference run: {}: {}", b.what, b.detail), desc.clone()))?;
+        // unreadable content: everything equals the run with the file absent; failed save: everything up
+        // to the restart (the choices are still in memory) - after it the lost choices may show
+        let n = if matches!(f, Fault::Dir(d) if *d < 4) { before_restart } else { got.len().max(want.len()) };
+        let a: Vec<&Rendered> = got.iter().take(n).collect();
+        let b: Vec<&Rendered> = want.iter().take(n).collect();
+        if a != b {
+            let i = a.iter().zip(b.iter()).position(|(x, y)| x != y).unwrap_or(a.len().min(b.len()));
             return Err(Failure::new(
-                "unreadable-file-not-treated-as-absent",
-                format!("rendering #{i} differs from the run without the file: {} vs {}", got.get(i).map(|r| r.short()).unwrap_or_default(), want.get(i).map(|r| r.short()).unwrap_or_default()),
+                if unreadable { "unreadable-file-not-treated-as-absent" } else { "failed-save-disturbs-later-events" },
+                format!("rendering #{i} differs from the run in a healthy directory without the file: {} vs {}", got.get(i).map(|r| r.short()).unwrap_or_default(), want.get(i).map(|r| r.short()).unwrap_or_default()),
                 desc,
             ));
         }
-        st.label("unreadable-compared-with-absent");
+        st.label(if unreadable { "unreadable-compared-with-absent" } else { "failed-save-compared-with-healthy-directory" });
     }
     if let Fault::Dir(d) = f {
         // repair the directory, then a learning commit must leave a loadable file
